@@ -1,6 +1,6 @@
 (* extract/Entry_E5c.v — entry points for the attribute inheritance model. *)
 From Coq Require Import ZArith QArith List Bool Ascii String.
-From Pico Require Import Num PyStr Value G_geom G_transform G_inherit Inherit Structure Entry_E1.
+From Pico Require Import Num PyStr Value G_geom G_transform G_inherit Inherit Structure CheckPico Entry_E1.
 Import ListNotations.
 Local Open Scope string_scope.
 
@@ -15,6 +15,17 @@ Fixpoint tnode_of (fuel : nat) (v : value) : @tnode QOps :=
   | S f => TN (match arg 0 v with VL _ => Some (aff_of (arg 0 v)) | _ => None end) (map (tnode_of f) (getL (arg 1 v)))
   end.
 Definition opt_aff (v : value) : option (Affine2D QOps) := match v with VL _ => Some (aff_of v) | _ => None end.
+
+Fixpoint xnode_of (fuel : nat) (v : value) : xnode :=
+  match fuel with
+  | O => XN "" None []
+  | S f => XN (getS (arg 0 v)) (match arg 1 v with VS s => Some s | _ => None end) (map (xnode_of f) (getL (arg 2 v)))
+  end.
+Fixpoint v_xnode (fuel : nat) (n : xnode) : value :=
+  match fuel with
+  | O => VN
+  | S f => VL [VS (xtag n); match xid n with Some s => VS s | None => VN end; VL (map (v_xnode f) (xkids n))]
+  end.
 
 Definition entry_E5c (orc : oracle) (name : string) (v : value) : option value :=
   if name =? "inherit_attrib" then
@@ -33,5 +44,11 @@ Definition entry_E5c (orc : oracle) (name : string) (v : value) : option value :
   else if name =? "unnest_transform" then
     Some (v_res v_aff (unnest_transform (N:=QOps) (getQ (arg 0 v)) (getQ (arg 1 v)) (getQ (arg 2 v)) (getQ (arg 3 v))
                          (match arg 4 v with VL _ => Some (rect_of (arg 4 v)) | _ => None end) (getS (arg 5 v)) (opt_aff (arg 6 v))))
+  else if name =? "gate" then
+    let root := xnode_of 64 (arg 2 v) in
+    let at_ := getB (arg 0 v) in
+    Some (if getB (arg 1 v)
+          then VL [VB (gate_ok_drop at_ root); v_xnode 64 (prune (depth root) at_ [("svg", O)] root)]
+          else VL [VB (gate_ok at_ root); v_xnode 64 root])
   else if name =? "inheritable_defaults" then Some (v_amap (inheritable_defaults (N:=QOps)))
   else None.
